@@ -146,7 +146,35 @@ func condFacts(c ssa.Value, pol bool, ifi *ssa.If, out *[]Fact) {
 			}
 		}
 	case *ssa.Phi:
-		// short-circuit value merged into a phi: x := a && b ... rare in conditions; keep opaque
+		// named short-circuit value: `x := a && b; if x` — go/ssa merges `false` (from the block where a
+		// failed) with b (evaluated in a block entered only when a held). x true ⇒ a ∧ b.  Dually for ||.
+		if isBool(v.Type()) {
+			var rest ssa.Value
+			var restPred *ssa.BasicBlock
+			okShape := true
+			for i, e := range v.Edges {
+				if k, isC := e.(*ssa.Const); isC && k.Value != nil {
+					if (k.Value.String() == "true") == pol {
+						okShape = false // a constant edge that agrees with the outcome carries no information
+					}
+					continue
+				}
+				if rest != nil {
+					okShape = false
+				}
+				rest, restPred = e, v.Block().Preds[i]
+			}
+			if okShape && rest != nil && len(restPred.Preds) == 1 {
+				pp := restPred.Preds[0]
+				if pif, ok := pp.Instrs[len(pp.Instrs)-1].(*ssa.If); ok && len(pp.Succs) == 2 && pp.Succs[0] != pp.Succs[1] {
+					n0 := len(*out)
+					condFacts(pif.Cond, pp.Succs[0] == restPred, ifi, out)
+					condFacts(rest, pol, ifi, out)
+					_ = n0
+					return
+				}
+			}
+		}
 	}
 	s := render(c)
 	val := "true"
@@ -333,6 +361,27 @@ func (w *World) expandSummaries(fs []Fact, depth int) []Fact {
 				continue
 			}
 			sum := w.returnSummaryIdx(callee, class, ridx)
+			if class != "nil" && len(sum) == 0 {
+				// predicate helper with one computed result (`return C.E2_in_G2(p)`, `return a < b`): its truth is
+				// the truth of that expression
+				if rs := returnsD(callee, 99); len(rs) == 1 {
+					k := 0
+					if ridx >= 0 {
+						k = ridx
+					}
+					if k < len(rs[0].Results) && isBool(rs[0].Results[k].Type()) {
+						if _, isC := rs[0].Results[k].(*ssa.Const); !isC {
+							var inner []Fact
+							condFacts(rs[0].Results[k], class == "true", nil, &inner)
+							for _, in := range inner {
+								if mentionsOnlyParams(in.Expr, callee) {
+									sum = append(sum, in.Expr)
+								}
+							}
+						}
+					}
+				}
+			}
 			for _, e := range sum {
 				x := e
 				for i, p := range callee.Params {
@@ -365,6 +414,12 @@ func (w *World) returnSummaryIdx(fn *ssa.Function, class string, ridx int) []str
 		return v
 	}
 	w.sumCache[key] = nil // recursion guard
+	// summaries are context-free: phrased over the callee's own parameter names, whatever call site a
+	// rule last entered the function through
+	if via, had := enteredBy[fn]; had {
+		delete(enteredBy, fn)
+		defer func() { enteredBy[fn] = via }()
+	}
 	var common map[string]bool
 	for _, r := range returns(fn) {
 		if len(r.Results) == 0 {
@@ -406,7 +461,8 @@ func (w *World) returnSummaryIdx(fn *ssa.Function, class string, ridx int) []str
 		fs := map[string]bool{}
 		for _, f := range w.factsAtK(r, true) {
 			// only facts about parameters/constants travel to the caller
-			if mentionsOnlyParams(f.Expr, fn) {
+			if mentionsOnlyParams(f.Expr, fn) || isNewHelper(fn) {
+				// (a helper the rules do not know keeps what it established about its own locals too)
 				fs[f.Expr] = true
 			}
 		}
@@ -431,7 +487,7 @@ func (w *World) returnSummaryIdx(fn *ssa.Function, class string, ridx int) []str
 
 // mentionsOnlyParams: every identifier root in the expression is a parameter name, `len`, or a literal.
 func mentionsOnlyParams(expr string, fn *ssa.Function) bool {
-	names := map[string]bool{"len": true, "nil": true, "true": true, "false": true}
+	names := map[string]bool{"len": true, "nil": true, "true": true, "false": true, "C": true}
 	for _, p := range fn.Params {
 		names[p.Name()] = true
 	}
